@@ -1729,17 +1729,17 @@ FAMILIES = {
 
 BUDGET = {
     "quick": {
-        "linked": 120,
-        "boundary": 90,
+        "linked": 110,
+        "boundary": 80,
         "idle": 24,
         "far_epoch": 40,
         "latency_link": 40,
         "chain": 50,
-        "daemon": 40,
-        "cancel": 50,
+        "daemon": 35,
+        "cancel": 45,
         "duplinks": 20,
-        "futures": 50,
-        "members": 40,
+        "futures": 40,
+        "members": 30,
         "independent": 50,
         "config": 30,
     },
